@@ -82,6 +82,8 @@ def s_cache_clear(I, recv, args, kw):
 def s_getHandlers(I, recv, args, kw):
     ev, ch = args[0], args[1]
     hs = Set(Ref).fresh('handlers_of')
+    x = core.fresh('x', core.RefSort())
+    I.assume(z3.ForAll([x], z3.Implies(z3.Select(hs.arr, x), z3.Select(I.st.alloc, x))), 'the handlers returned are existing objects')
     log(I, 'GETHANDLERS').append((recv, ev, ch, hs))
     return hs
 
@@ -128,6 +130,10 @@ def s_list_sort(I, recv, args, kw):
     I.assume(z3.ForAll([x], z3.Exists([i], z3.And(L.lo <= i, i < L.hi, z3.Select(a, i) == x)) ==
                        z3.Exists([j], z3.And(old.lo <= j, j < old.hi, z3.Select(old.arrs[0], j) == x))))
     I.assume(z3.ForAll([i], z3.Implies(z3.And(L.lo <= i, i < L.hi), z3.Select(a, i) != core.null())))
+    # a permutation of a list without repetitions has no repetitions
+    oa = old.arrs[0]
+    I.assume(z3.Implies(z3.ForAll([i, j], z3.Implies(z3.And(old.lo <= i, i < j, j < old.hi), z3.Select(oa, i) != z3.Select(oa, j))),
+                        z3.ForAll([i, j], z3.Implies(z3.And(L.lo <= i, i < j, j < L.hi), z3.Select(a, i) != z3.Select(a, j)))))
     from pyvc.interp import Frame as _Frame
     I.frame.env[_Frame.alias.get('event_handlers', 'event_handlers')] = L     # the sorted list replaces the local (whatever its current name)
     return NONE
@@ -441,7 +447,10 @@ def c04_iteration(I, how):
         for e in nexc:
             I.oblige('raise.exception_event_names_handler_and_event', z3.And(e.kwargs['handler'].t == I.local('event_handler').t,
                                                                              e.kwargs['fevent'].t == ev.t))
-        I.oblige('raise.loop_goes_on', z3.BoolVal(True))
+        if how != 'continue':
+            I.oblige('raise.remaining_handlers_still_run', I.fz(ev, 'stopped'),
+                     detail='an exception in one handler never prevents the remaining handlers: the loop is left after a raising '
+                            'handler only if the event was stopped')
     elif oc == 1:
         cover(I, 'kbint')
         I.oblige('keyboard_interrupt.stops_manager', z3.BoolVal(len(stops) == 1 and len(stops[0]) == 0))
